@@ -86,6 +86,10 @@ def run(ctx, rep):
     # an operand the folder drops is a statement's worth of output / a failure that never happens (`probe() || true`)
     from props import C15 as _c15
     _c15.fold_keeps_operands(F, rep, rule="C01.fold-keeps-operands")
+    # a condition over constants (`if 9007199254740993 > 9007199254740992`) takes the branch the interpreter would take only if the folder hands back
+    # nothing but what the compared operator tables produce (C06's clause: a comparison folded through f64 is outside of them)
+    from props import C06 as _c06
+    _c06.only_table_operators_are_folded(F, rep, rule="C01.fold-scope")
     # `x + f()` reads x before f runs: the operands of the binary operators are laid down left to right (C15's clause; a program of assignments, calls and
     # expressions prints something else otherwise)
     from core import Report as _Report
